@@ -273,7 +273,7 @@ def run(ctx: Ctx):
     ctx.trusted_extra = ["jax.lax.conv_general_dilated modelled by xlaConv (validated in C04)",
                          "the per-axis options of the transformed call are chosen by the harness with refs.transport; "
                          "the Lean side uses ConvCfg.transport"]
-    n_cfg = 14 if ctx.tier == "quick" else 150
+    n_cfg = 40 if ctx.tier == "quick" else 300
     idx = 0
     for d in (2, 3):
         ops = refs.signed_perms(d)
